@@ -7,9 +7,12 @@ git -C /repo diff --quiet || { echo "/repo is dirty"; exit 2; }
 git -C /repo apply $M/patch.diff || { echo "patch does not apply"; exit 2; }
 mkdir -p /tmp/mutreplays
 S=$(date +%s)
+cp evidence/$P.json /tmp/mutreplays/evidence.$P.keep 2>/dev/null
 bin/check $P $T > $M/detect.$P.log 2>&1; RC=$?
 E=$(( $(date +%s) - S ))
 git -C /repo checkout -- .
+# the evidence file describes runs on the real tree, not on a seeded change
+cp /tmp/mutreplays/evidence.$P.keep evidence/$P.json 2>/dev/null
 # replays written for a seeded change are not findings on the real tree
 for f in $(grep -o "replay=replays/[^] ]*" $M/detect.$P.log | cut -d= -f2); do mv $f /tmp/mutreplays/ 2>/dev/null; done
 echo "$(basename $(dirname $M))/$(basename $M) check=$P rc=$RC ${E}s $(grep -c '^VIOLATION' $M/detect.$P.log) violation line(s): $(grep -A1 '^VIOLATION' $M/detect.$P.log | grep class= | head -2 | cut -c1-160 | tr '\n' ' ')"
